@@ -215,13 +215,18 @@ func flipChar(s string, pos int) (string, bool) {
 
 	i := 0
 
-	switch pos {
-	case 1:
+	switch {
+	case pos == 1:
 		i = len(s) / 2
-	case 2:
+	case pos == 2:
 		i = len(s) - 1
 		for i > 0 && s[i] == '=' {
 			i--
+		}
+	case pos >= 10: // absolute position (modulo the length)
+		i = (pos - 10) % len(s)
+		if s[i] == '=' {
+			return s, false
 		}
 	}
 
@@ -233,8 +238,8 @@ func flipChar(s string, pos int) (string, bool) {
 	// at the last position choose a neighbour that differs in the low bits only (exercises the lenient decoder),
 	// elsewhere any other symbol
 	n := b64chars[(c+1)%64]
-	if pos == 2 {
-		n = b64chars[c^1]
+	if pos == 2 || (pos >= 10 && pos%2 == 1) {
+		n = b64chars[c^1] // single low bit
 	}
 
 	return s[:i] + string(n) + s[i+1:], true
@@ -309,12 +314,20 @@ func (p *pool) run(kind string, c Case, tr *hx.Trace) {
 	e2, err2 := p.pack(c.H2)
 
 	if err1 != nil || err2 != nil {
-		fmt.Fprintln(os.Stderr, "c02: honest pack failed (generator error):", err1, err2)
-		os.Exit(2)
+		// the generator only asks for configurations that pack on the unchanged tree
+		rec.Oracle, rec.Sig, rec.Detail = "fail", "honest-pack-failed:"+c.H1.Packer, fmt.Sprint(err1, " / ", err2)
+		rec.Class = "pack-failed"
+		tr.Put(rec)
+
+		return
 	}
 
 	mutated, coqE, own, err := p.mutate(c, e1, e2)
 	if err != nil {
+		if c.Mut.Kind == "flip" && c.Mut.Pos >= 10 {
+			return // a padding position
+		}
+
 		fmt.Fprintf(os.Stderr, "c02: mutation %+v not applicable: %v\n", c.Mut, err)
 		os.Exit(2)
 	}
@@ -418,7 +431,7 @@ func (p *pool) run(kind string, c Case, tr *hx.Trace) {
 
 // ---------- mutations ----------
 
-func junk(c Case) string { return fmt.Sprintf("(Junk %d)", 500+c.Mut.Idx*10+c.Mut.Pos) }
+func junk(c Case) string { return fmt.Sprintf("(Junk %d)", 500+c.Mut.Idx*10000+c.Mut.Pos) }
 
 // mutate returns the adversarial envelope, its symbolic description (body of fun w1 w2 => ...), and whether it is the
 // adversary's own construction (not derived from an honest envelope).
@@ -781,6 +794,30 @@ func (p *pool) mutateJWE(c Case, e1, e2 []byte) ([]byte, string, bool, error) {
 		out.SetProtectedMap(pm)
 
 		return out.Bytes(), fmt.Sprintf("WJwe (set_prot (Some (%s (P w1))) (J w1))", upd), false, nil
+	case "unprot":
+		// a shared unprotected header (JSON serialization): nothing in it is authenticated and the packers must not
+		// take anything from it
+		if out.Compact {
+			return nil, "", false, fmt.Errorf("no unprotected member in compact form")
+		}
+
+		other := p.keys[h.kt()][5][0]
+		um := map[string]interface{}{}
+
+		switch m.Arg {
+		case "skid":
+			um["skid"] = other.Ref(h.Style)
+		case "kid":
+			um["kid"] = victim2.Ref(h.Style)
+		case "alg-enc":
+			um["alg"], um["enc"] = "ECDH-ES+A256KW", "A256GCM"
+		default:
+			um["x"] = 1
+		}
+
+		out.Unprotected, _ = json.Marshal(um)
+
+		return out.Bytes(), "w1", false, nil
 	case "es-forge":
 		// an outsider (party 5) uses the public API: NewJWEEncrypt with a sender KEY ID but no sender key
 		return p.esForge(c)
@@ -1228,10 +1265,7 @@ func (p *pool) gen(tr *hx.Trace, rng *hx.Rng, thorough bool) {
 		}
 
 		for _, n := range []int{1, 2, 3} {
-			k := 2
-			if thorough {
-				k = len(cfgs)
-			}
+			k := len(cfgs)
 
 			for j := 0; j < k; j++ {
 				cf := cfgs[(ci+j+n)%len(cfgs)]
@@ -1268,10 +1302,22 @@ func (p *pool) gen(tr *hx.Trace, rng *hx.Rng, thorough bool) {
 		emit("sanity", pr, Mut{Kind: "whole-e2"}, victim, via)
 		emit("sanity", pr, Mut{Kind: "none"}, 5, via)
 
-		// every base64 field, first / middle / last symbol
+		// every base64 field: first / middle / last symbol, seeded positions, and EVERY position on a sample of the
+		// pairs (quick: 4 pairs, thorough: a third)
 		for _, f := range []string{"protected", "iv", "ciphertext", "tag"} {
 			for pos := 0; pos < 3; pos++ {
 				emit("flip", pr, Mut{Kind: "flip", Field: f, Pos: pos}, victim, via)
+			}
+
+			for q := 0; q < 3; q++ {
+				emit("flip", pr, Mut{Kind: "flip", Field: f, Pos: 10 + rng.Intn(4000)}, victim, via)
+			}
+
+			if (thorough && pi%3 == 0) || pi%13 == 5 {
+				lim := map[string]int{"protected": 700, "iv": 32, "ciphertext": 120, "tag": 44}[f]
+				for q := 0; q < lim; q++ {
+					emit("flip-all", pr, Mut{Kind: "flip", Field: f, Pos: 10 + q}, victim, via)
+				}
 			}
 		}
 
@@ -1357,6 +1403,10 @@ func (p *pool) gen(tr *hx.Trace, rng *hx.Rng, thorough bool) {
 						emit("hdr", pr, Mut{Kind: "hdr", Idx: i, Arg: a}, 2, via) // the party of entry 1
 					}
 				}
+			}
+
+			for _, a := range []string{"skid", "kid", "alg-enc", "other"} {
+				emit("unprot", pr, Mut{Kind: "unprot", Arg: a}, victim, via)
 			}
 
 			for _, a := range []string{"rotate", "drop", "dup", "insert-own2"} {
